@@ -6,7 +6,7 @@ against /repo with the patch applied (then reverts) and prints a detection table
 usage: ownmut.py gen            # write /verif/seeded/own/<name>/patch.diff for test-passing mutations
        ownmut.py run [name...]  # apply each patch to /repo, run its checks (quick), revert
 """
-import json, os, subprocess, sys, shutil, time
+import fcntl, json, os, subprocess, sys, shutil, time
 
 WT = '/tmp/wt/own'
 OUT = '/verif/seeded/own'
@@ -91,7 +91,7 @@ HOIST_NEW = """	case []*expr.Expression:
 
 
 def sh(cmd, cwd=None, env=ENV, timeout=1800):
-    return subprocess.run(cmd, shell=True, cwd=cwd, env=env, capture_output=True, text=True, timeout=timeout)
+    return subprocess.run(cmd, shell=True, cwd=cwd, env=env, capture_output=True, text=True, errors="replace", timeout=timeout)
 
 
 def ensure_wt():
@@ -175,6 +175,8 @@ def run(names):
 
 
 if __name__ == '__main__':
+    _lock = open('/tmp/repo-mutation.lock', 'w')
+    fcntl.flock(_lock, fcntl.LOCK_EX)  # one /repo-mutating job at a time
     if sys.argv[1] == 'gen':
         gen()
     else:
